@@ -29,7 +29,7 @@ theorem good_emptyRoot (b : ColBox) (h : Good b) : Good (emptyRoot b) := by
     simp only [Good] at h
     simp [emptyRoot, Good, GoodList, h.1]
   | columns id st cs flags kids =>
-    simp [emptyRoot, Good, GoodList, NoSpanFlags]
+    simp [emptyRoot, Good, GoodList]
 
 theorem linesFrom_emptyRoot (b : ColBox) (σ : Option Resume) : linesFrom (emptyRoot b) σ = [] := by
   cases b with
